@@ -1865,7 +1865,10 @@ impl<'a> Socket<'a> {
 
         // If a FIN is received at the end of the current segment, but
         // we have a hole in the assembler before the current segment, disregard this FIN.
-        if control == TcpControl::Fin && window_start < segment_start {
+        // Likewise if the tail of the segment was cut off at the right edge of the receive
+        // window: the octets between the window edge and the FIN have not been received.
+        if control == TcpControl::Fin && (window_start < segment_start || window_end < segment_end)
+        {
             tcp_trace!(
                 "ignoring FIN because we don't have full data yet. window_start={} segment_start={}",
                 window_start,
